@@ -593,8 +593,8 @@ class Array(DataType):
             and isinstance(shape[0], int)
             and len(shape) > 1
         ):
-            offset = len(shape) - 1
-            shape = shape[offset:]
+            # ``inner`` is the array type of the remaining dimensions
+            shape = shape[:1]
 
         return cls(
             inner=polars_dtype.inner,
